@@ -105,6 +105,14 @@ class Ctx:
     # ------------------------------------------------------------------ verdict
     def conclude(self, level_if_no_proof='exploration'):
         res = self.res
+        # properties that are equalities with a documented function (DESIGN.md section 4): the model is PROVED equal to the
+        # specification, so an operation on which the implementation differs from the model is a concrete failing input
+        if not self.pred_fail:
+            for (name, v, i, ops, a, b, idx, stateless) in self.diffs:
+                if name in self.equality_streams and len([1 for n_, _, _ in self.pred_fail if n_ == 'differs-from-specification']) < 2:
+                    rops = [ops[idx]] if stateless else shrink_history(self.meta, v, ops, idx)
+                    self.pred_fail.append(('differs-from-specification', {'kind': 'ops', 'variant': v, 'ops': rops, 'index': len(rops) - 1, 'got': a, 'expected': b,
+                        'note': 'the implementation (build variant %s) differs on this input from the Lean model, which is proved equal to the documented function (%s)' % (v, self.equality_streams[name])}, None))
         seen = set()
         per_name = collections.Counter()
         for name, replay, key in self.pred_fail:
@@ -114,15 +122,6 @@ class Ctx:
             per_name[name] += 1
             if per_name[name] > 2: continue
             res.violation(name, replay, True, key)
-        # properties that are equalities with a documented function (DESIGN.md section 4): the model is PROVED equal to the
-        # specification, so an operation on which the implementation differs from the model is a concrete failing input
-        if not self.pred_fail:
-            for (name, v, i, ops, a, b, idx, stateless) in self.diffs:
-                if name in self.equality_streams and len([1 for n_, _, _ in self.pred_fail if n_ == 'differs-from-specification']) < 2:
-                    rops = [ops[idx]] if stateless else shrink_history(self.meta, v, ops, idx)
-                    self.pred_fail.append(('differs-from-specification', {'kind': 'ops', 'variant': v, 'ops': rops, 'index': len(rops) - 1, 'got': a, 'expected': b,
-                        'note': 'the implementation (build variant %s) differs on this input from the Lean model, which is proved equal to the documented function (%s)' % (v, self.equality_streams[name])}, None))
-        for name, replay, key in list(self.pred_fail)[:0]: pass
         found = bool(self.pred_fail)
         known_keys = {k for (p, k, _) in known_findings() if p == self.pid}
         if not found:
@@ -1198,6 +1197,35 @@ def check_C06(ctx):
                     ctx.fail('memory-contract', ops, o, 'slack=ok inputs=ok, no crash, no sanitizer report',
                              'a byte outside the documented output range was written, an input was modified, a guard page was hit or a sanitizer fired', variant=v)
                     break
+    # the same window on the MiniC interpreter of the regenerated source: out-of-range, misaligned, uninitialised accesses,
+    # shifts and divisions are faults of that semantics; by TJ.Props.C06.safety_independent_of_contents the verdict of each
+    # executed shape holds for every content of the buffers
+    import taint
+    ok, stats = taint.regenerate(ctx)
+    ctx.extra_cov['minic'] = {k: stats.get(k) for k in ('functions', 'translated', 'nodes', 'globals', 'errors', 'build_ok')}
+    if stats.get('errors'): ctx.broken_proofs.append('tools/c2lean.py cannot translate the current sources: ' + '; '.join(stats['errors'][:3]))
+    elif not ok: ctx.broken_proofs.append('regenerated MiniC program no longer builds: ' + stats.get('build_log_tail', '')[-400:])
+    if ok and os.path.exists(taint.MINIC):
+        sub = lines if ctx.tier == 'thorough' else [l for i, l in enumerate(lines) if i % 3 == ctx.seed % 3 or not l.startswith(('aead', 'siv'))]
+        for name, ls, outs, stateless in (('minic-window(stateless)', sub, None, True), ('minic-window(incremental)', hl, hi, False)):
+            mo = taint.run_minic(ls, stateless=stateless)
+            io = outs if outs is not None else run_stateless(ctx.meta, 'prod', ls)
+            st = ctx.streams.setdefault(name, {'evaluations': 0, 'nontrivial': set(), 'diffs': 0})
+            st['evaluations'] += len(ls)
+            nf = 0; nd = 0
+            for l, m, c in zip(ls, mo, io):
+                st['nontrivial'].add(hashlib.md5(l.encode()).digest())
+                if m.startswith('fault'):
+                    nf += 1
+                    if nf <= 2:
+                        ctx.fail('memory-contract(source)', [l], m, 'no fault', 'executing the regenerated C source on this input, the MiniC semantics stops with a fault '
+                                 '(out-of-range / misaligned / uninitialised access, NULL dereference, bad shift or division, or an output byte left unwritten); '
+                                 'by TJ.Props.C06.safety_independent_of_contents the same happens for every content of the buffers with these lengths', variant='minic')
+                elif not taint.agrees(m, c):
+                    nd += 1; st['diffs'] += 1
+                    if nd <= 1: ctx.broken_proofs.append('MiniC(regenerated source) and the compiled implementation disagree on "%s": minic=%s impl=%s' % (l[:100], m[:100], c[:100]))
+            ctx.extra_cov.setdefault('minic_runs', {})[name] = {'ops': len(ls), 'faults': nf, 'disagreements_with_impl': nd}
+        ctx.variants_used.add('minic')
     if ctx.tier == 'thorough':
         _valgrind_defined(ctx, lines[::7] + hl[::3])
 
